@@ -113,6 +113,9 @@ def site_class(label, plabel):
         head = m.group(1) + ":" + re.sub(r"x$", "", m.group(2))          # the token-run families: by token kind
     if head.startswith("pair:"):
         head = "pair"                                                      # sibling pairs: one class
+    if head.startswith("emptybase:"):
+        f = label.split("|")[0].split(":")
+        head = ":".join([f[0], f[1], f[-1]])                               # empty-base family: by kind of empty script and what follows the pair
     return head + ("+dev" if "|" in label else "")
 
 
